@@ -42,6 +42,32 @@ Proof.
   rewrite Ht. cbn [negb orb fst]. repeat split.
 Qed.
 
+(* a shrink through a claimed handle does nothing to the arena: a block that already satisfies the
+   new alignment comes back unchanged (also through WithoutShrink), any other request fails *)
+Theorem claimed_shrink_noop c s h ws b nsize nalign r :
+  h <> depth s ->
+  let s' := fst (step c s (OShrink h ws b nsize nalign) r) in
+  chunks s' = chunks s /\ cur s' = cur s /\ (forall a, mem s' a = mem s a) /\ depth s' = depth s /\
+  forall blk, find_block (tick s) b = Some blk ->
+    o_res (snd (step c s (OShrink h ws b nsize nalign) r)) =
+      (if divides nalign (bptr blk)
+       then RBlock (nextid (tick s)) (bptr blk) (if has_wrapper WShrink ws then nsize else bsize blk)
+       else RErr ErrClaimed).
+Proof.
+  intros Hne. cbv zeta. cbn [step].
+  assert (Ht : is_top (tick s) h = false) by (unfold is_top; cbn [tick depth]; apply Nat.eqb_neq; exact Hne).
+  destruct (find_block (tick s) b) as [blk|] eqn:Efb; [|repeat split; intros blk0 Hb; discriminate].
+  rewrite Ht. cbn [negb andb].
+  destruct (has_wrapper WShrink ws) eqn:Ew; cbn [andb negb].
+  - destruct (divides nalign (bptr blk)) eqn:Ed; cbn [negb].
+    + unfold ws_shrink. rewrite Ed. cbn [fst snd ro_ptr ro_size ro_ub]. repeat split.
+      intros blk0 Hb. injection Hb as <-. rewrite Ed. reflexivity.
+    + repeat split. intros blk0 Hb. injection Hb as <-. rewrite Ed. reflexivity.
+  - destruct (divides nalign (bptr blk)) eqn:Ed.
+    + cbn [fst snd]. repeat split. intros blk0 Hb. injection Hb as <-. rewrite Ed. reflexivity.
+    + repeat split. intros blk0 Hb. injection Hb as <-. rewrite Ed. reflexivity.
+Qed.
+
 Theorem claimed_stats_zero c s h r :
   h <> depth s -> o_res (snd (step c s (OStats h) r)) = RStats (mkStats 0 0 0 0 0) true.
 Proof.
